@@ -32,6 +32,7 @@ CHECKS = {
     'C13': ('checks.numexpr', 'C13'),
     'C14': ('checks.c14', 'C14'),
     'C16': ('checks.c16', 'C16'),
+    'C17': ('checks.c17', 'C17'),
     'C19': ('checks.c19', 'C19'),
 }
 
